@@ -34,6 +34,13 @@ type Mutant struct {
 	// Expect: substring that must occur in the key of a new violation ("" = any).
 	Expect string
 	Note   string
+	// More: further replacements (each in its own file) applied with the first.
+	More []Edit
+}
+
+// Edit is one additional textual replacement of a multi-site mutant.
+type Edit struct {
+	File, Old, New string
 }
 
 type selftestResult struct {
@@ -101,7 +108,16 @@ func applyMutant(dir string, m Mutant) (bool, error) {
 	}
 	k += start
 	s = s[:k] + m.New + s[k+len(m.Old):]
-	return true, os.WriteFile(p, []byte(s), 0o644)
+	if err := os.WriteFile(p, []byte(s), 0o644); err != nil {
+		return true, err
+	}
+	for _, e := range m.More {
+		ok, err := applyMutant(dir, Mutant{File: e.File, Old: e.Old, New: e.New})
+		if !ok || err != nil {
+			return ok, err
+		}
+	}
+	return true, nil
 }
 
 // dumpViolations runs this binary's -dump on dir and returns violated keys by rule.
